@@ -928,12 +928,15 @@ def rw_enum(fi, args, spec=None):
 
 
 def rw_clospat(fi, args, spec=None):
-    """R-CLOSPAT: `|PAT| E` with a non-variable pattern -> `|__p| { let PAT = __p; E }` (closure literals whose
-    single parameter is a pattern; E extends to the closing delimiter of the enclosing call)."""
+    """R-CLOSPAT: `|PAT| E` with a non-variable pattern -> `|__p: T| -> (r: R) <spec> { let PAT = __p; E }` (closure
+    literals whose single parameter is a pattern; E extends to the closing delimiter of the enclosing call).
+    args: (T, R) pairs for the pattern closures in source order; the spec comes from `at closure K spec` where K is
+    the ordinal of the closure literal among ALL closure literals of the function."""
     toks = fi.toks
     src = fi.sf.src
     edits = []
-    for cl in fi.closures:
+    n = 0
+    for K, cl in enumerate(fi.closures):
         b1, b2 = cl['bar1'], cl['bar2']
         if b2 == b1 + 1:
             continue
@@ -942,7 +945,6 @@ def rw_clospat(fi, args, spec=None):
         pat = src[toks[b1 + 1].start:toks[b2].start].strip()
         if ':' in pat and not pat.startswith('('):
             continue
-        # body: up to the `)` or `,` closing the enclosing call at depth 0
         j = b2 + 1
         while True:
             t = toks[j]
@@ -952,26 +954,18 @@ def rw_clospat(fi, args, spec=None):
                 break
             j += 1
         body = src[toks[b2 + 1].start:toks[j].start].strip()
-        pty = args[2 * len(edits)] if len(args) > 2 * len(edits) else '_'
-        rty = args[2 * len(edits) + 1] if len(args) > 2 * len(edits) + 1 else '_'
-        edits.append((toks[b1].start, toks[j].start, f'|__p: {pty}| -> (r: {rty}) CLOSURE_SPEC_{len(edits)} {{ let {pat} = __p; {body} }}', 'R-CLOSPAT'))
-    if not edits:
-        raise LostAnchor(f'fn {fi.item.name}: R-CLOSPAT did not fire')
-    # splice closure specs
-    out = []
-    for n, e in enumerate(edits):
-        txt = e[2]
+        pty = args[2 * n] if len(args) > 2 * n else '_'
+        rty = args[2 * n + 1] if len(args) > 2 * n + 1 else '_'
         sp = ''
         if spec is not None:
             for anchor, text, org in spec.inserts:
-                if anchor == f'closure {n} spec':
+                if anchor == f'closure {K} spec':
                     sp = '\n' + text + '\n'
-        if sp:
-            txt = txt.replace(f'CLOSURE_SPEC_{n}', sp)
-        else:
-            txt = txt.replace(f' CLOSURE_SPEC_{n}', '')
-        out.append((e[0], e[1], txt, e[3]))
-    return out
+        edits.append((toks[b1].start, toks[j].start, f'|__p: {pty}| -> (r: {rty}){sp} {{ let {pat} = __p; {body} }}', 'R-CLOSPAT'))
+        n += 1
+    if not edits:
+        raise LostAnchor(f'fn {fi.item.name}: R-CLOSPAT did not fire')
+    return edits
 
 
 def rw_intovec(fi, args, spec=None):
@@ -1106,7 +1100,29 @@ def rw_paramname(fi, args, spec=None):
     return edits
 
 
+def rw_dyncall(fi, args, spec=None):
+    """R-DYNCALL: `(RECV)(ARGS)` (call of a `dyn Fn` object stored in a field) -> `RECV.vc_call(ARGS)`; Verus does not
+    support `dyn Fn` types, the stub type of the field offers `vc_call` with the closure's assumed contract."""
+    toks = fi.toks
+    edits = []
+    i = fi.item.body_open + 1
+    while i < fi.item.body_close:
+        if is_p(toks[i], '(') and not (toks[i - 1].kind == 'id' and toks[i - 1].text not in ('if', 'while', 'return', 'match', 'in', 'else')) \
+                and not (toks[i - 1].kind == 'punct' and toks[i - 1].text in (')', ']', '!', '>')):
+            k = match_close(toks, i)
+            if k + 1 < fi.item.body_close and is_p(toks[k + 1], '(') and toks[k + 1].start == toks[k].end:
+                inner = fi.sf.src[toks[i + 1].start:toks[k].start].strip()
+                if re.match(r'^[A-Za-z_][A-Za-z0-9_]*(\.[A-Za-z_][A-Za-z0-9_]*)+$', inner):
+                    edits.append((toks[i].start, toks[k + 1].end, inner + '.vc_call(', 'R-DYNCALL'))
+                    i = k + 1
+        i += 1
+    if not edits:
+        raise LostAnchor(f'fn {fi.item.name}: R-DYNCALL did not fire')
+    return edits
+
+
 REWRITES = {
+    'R-DYNCALL': rw_dyncall,
     'R-PARAMNAME': rw_paramname,
     'R-HOISTEND': rw_hoistend,
     'R-CLOSANN': rw_closann,
